@@ -71,6 +71,8 @@ def defining(cls, meth):
 BV = "DenseBreedingValueMatrix"
 BV_TRAIT_SITE = BV + ".<trait-axis operation> (inherited from DenseTaxaTraitMatrix/DenseTraitMatrix)"
 BV_TRAIT_REL = "per-trait location/scale follow the traits, so that unscale() returns the entities' values"
+BV_TAXA_SITE = BV + ".<taxa-axis operation joining matrices> (inherited from DenseTaxaTraitMatrix/DenseTaxaMatrix)"
+BV_TAXA_REL = "separately standardised operands are joined on the original scale, so that unscale() returns the entities' values"
 
 
 def site_of(name, cls, meth):
@@ -479,6 +481,12 @@ def step_(ctx, g, name, obj, ids, regime, nxt, hist, coords, sibs):
                               site, ref[0], res.location, res.scale, ref[3].location, ref[3].scale),
                           witness=dict(w0, fields=d, reference=ref[0], form=tag), coords=coords)
                 continue
+            if d == ["data"] and name == BV and axis == "taxa" and op in ("insert", "adjoin"):
+                # labels agree, only the values seen through unscale() differ: the inherited in-place form joins stored values
+                ctx.check("C03.equiv", False, BV_TAXA_SITE, rel + " (values through unscale())", icls,
+                          what="%s and %s have the same labels but different unscale() values" % (site, ref[0]),
+                          witness=dict(w0, fields=d, reference=ref[0], form=tag), coords=coords)
+                continue
             ctx.check("C03.equiv", not d, site, rel, icls_op,
                       what="%s and %s differ in %s" % (site, ref[0], d), witness=dict(w0, fields=d, reference=ref[0]), coords=coords)
     # ---- model / intrinsic / groups on the reference result
@@ -497,6 +505,16 @@ def step_(ctx, g, name, obj, ids, regime, nxt, hist, coords, sibs):
                       site, res.location, res.scale, bad), witness=dict(w0, fields=bad, expected_ids=new, operation=ref[0]), coords=coords)
         if regime.kind == "unique":
             ctx.check("C03.intrinsic", False, BV_TRAIT_SITE, BV_TRAIT_REL, icls, witness=dict(w0, fields=bad, operation=ref[0]), coords=coords)
+        check_groups(ctx, name, res, site, icls, coords, list(hist))
+        return build(name, ids2, regime), ids2, "resync"
+    if bad == ["mat"] and name == BV and axis == "taxa" and op in ("insert", "adjoin", "concat"):
+        # all labels right, only the values seen through unscale() wrong after joining matrices along the taxa axis
+        ctx.check("C03.model", False, BV_TAXA_SITE, BV_TAXA_REL, icls,
+                  what="%s: labels are those of the expected entities but unscale() does not return their values" % site,
+                  witness=dict(w0, fields=bad, expected_ids=new, operation=ref[0]), coords=coords)
+        if regime.kind == "unique":
+            ctx.check("C03.intrinsic", False, BV_TAXA_SITE, BV_TAXA_REL, icls, witness=dict(w0, fields=bad, operation=ref[0]), coords=coords)
+        check_groups(ctx, name, res, site, icls, coords, list(hist))
         return build(name, ids2, regime), ids2, "resync"
     ctx.check("C03.model", not bad, site, "labels and cells equal those of the expected entity sequence", icls_op,
               what="%s (%s): fields %s differ from the entity model" % (site, name, bad), witness=dict(w0, fields=bad, expected_ids=new), coords=coords)
@@ -750,9 +768,9 @@ def one_history(ctx, c):
 
 
 def run_shard(ctx):
-    for c in ctx.case_ids(7800, 13 * 16 * 1500):
+    for c in ctx.case_ids(20800, 13 * 16 * 1500):
         one_history(ctx, c)
-    for c in ctx.case_ids(1000, 30000):
+    for c in ctx.case_ids(2400, 30000):
         case_genotyping(ctx, c)
 
 
